@@ -164,6 +164,7 @@ pub fn run(ctx: &Ctx) -> i32 {
             return c;
         }
     }
-    let code = rec.borrow().finish(&ctx.findings);
-    code
+    let gen = crate::genpipe::merge_gen_part(ctx, &rec, "C11");
+    let own = rec.borrow().finish(&ctx.findings);
+    crate::genpipe::combine(own, gen)
 }
